@@ -332,6 +332,8 @@ def run(tree, rep, tier):
     r8(prog, rep)
     r6(tree, rep)
     r9(tree, rep)
+    from .. import payload
+    payload.check(tree, rep, "C08.R10", "taken for an undecryptable one: a peer with the right code is closed with WrongPasswordError / mood scary")
     from .C01 import decrypt_raises_only_cryptoerror
     decrypt_raises_only_cryptoerror(tree, rep, "C08.R7")
     r5(tree, rep, tier)
